@@ -117,6 +117,8 @@ class MinimizerIMinuit(MinimizerBase):
         return self.__iminuit
 
     def _calculate_asymmetric_parameter_errors(self):
+        _ = self.parameter_values, self.parameter_errors  # fill the caches so that they are part of the saved state
+        self._save_state()
         try:
             if _IMINUIT_1:
                 _minos_result = self._get_iminuit().minos()
@@ -126,6 +128,7 @@ class MinimizerIMinuit(MinimizerBase):
                 _minos_result = _m.merrors
                 _par_names_free = [_pn for _pn in self.parameter_names if not self.is_fixed(_pn)]
         except RuntimeError:
+            self._load_state()
             return None
         _asymm_par_errs = np.zeros(shape=(self.num_pars, 2))
         for _par_name in self.parameter_names:
@@ -140,7 +143,7 @@ class MinimizerIMinuit(MinimizerBase):
                     _par_index_free = _par_names_free.index(_par_name)
                     _asymm_par_errs[_par_index, 0] = _minos_result[_par_index_free].lower
                     _asymm_par_errs[_par_index, 1] = _minos_result[_par_index_free].upper
-        self.minimize()
+        self._load_state()  # return to the minimum
         return _asymm_par_errs
 
     # -- public properties
@@ -292,6 +295,8 @@ class MinimizerIMinuit(MinimizerBase):
         _numpoints = minimizer_contour_kwargs.pop("numpoints", 100)
         if minimizer_contour_kwargs:
             raise ValueError("Unknown keyword arguments for contour(): {}".format(minimizer_contour_kwargs.keys()))
+        _ = self.parameter_values, self.parameter_errors  # fill the caches so that they are part of the saved state
+        self._save_state()
         if _IMINUIT_1:
             _x_errs, _y_errs, _contour_line = self._get_iminuit().mncontour(parameter_name_1, parameter_name_2, numpoints=_numpoints, sigma=sigma)
         else:
@@ -299,7 +304,7 @@ class MinimizerIMinuit(MinimizerBase):
             # normal distribution over a circle of radius sigma centered on (0, 0).
             _cl = 1.0 - np.exp(-0.5 * sigma**2)
             _contour_line = self._get_iminuit().mncontour(parameter_name_1, parameter_name_2, size=_numpoints, cl=_cl)
-        self.minimize()  # return to minimum
+        self._load_state()  # return to minimum
         if len(_contour_line) == 0:
             return None  # failed to find any point on contour
         return ContourFactory.create_xy_contour(np.array(_contour_line), sigma)
@@ -317,16 +322,18 @@ class MinimizerIMinuit(MinimizerBase):
     ):
         if not self.did_fit:
             raise RuntimeError("Need to perform a fit before calling profile()!")
+        _ = self.parameter_values, self.parameter_errors  # fill the caches so that they are part of the saved state
+        self._save_state()
         _bound_low, _bound_high, _arrow_specs = self._get_profile_bound(parameter_name, low, high, sigma, cl, subtract_min, arrows)
-        self.minimize()  # return to minimum
+        self._load_state()  # return to minimum
         _kwargs = dict(bound=(_bound_low, _bound_high), subtract_min=subtract_min)
         if _IMINUIT_1:
             _kwargs["bins"] = size
         else:
             _kwargs["size"] = size
-        _bins, _vals, _statuses = self.__iminuit.mnprofile(parameter_name, **_kwargs)
+        _bins, _vals, _statuses = self._get_iminuit().mnprofile(parameter_name, **_kwargs)
         # TODO: check statuses (?)
-        self.minimize()  # return to minimum
+        self._load_state()  # return to minimum
         return np.array([_bins, _vals]), _arrow_specs
 
     def set(self, parameter_name, parameter_value):
